@@ -212,7 +212,8 @@ class BuildDirector(SectionLineParser):
             # center of geometry
             mapped_coords = map_from_CoG(coords)
             self.templates[graph_hash] = mapped_coords
-            self.resnames_to_hash[resname] = graph_hash
+            # there can be more than one template for the same residue name
+            self.resnames_to_hash[resname] = self.resnames_to_hash.get(resname, []) + [graph_hash]
             self.current_template = None
 
     def finalize(self, lineno=0):
@@ -236,12 +237,13 @@ class BuildDirector(SectionLineParser):
 
         # if template graphs and volumes are provided
         # make sure that volumes are indexed by the hash
-        for resname, graph_hash in self.resnames_to_hash.items():
+        for resname, graph_hashes in self.resnames_to_hash.items():
             # the volume stays available by residue name as well, because
             # residues with the same name but a different graph (i.e. hash)
             # look it up by name
             if resname in self.topology.volumes:
-                self.topology.volumes[graph_hash] = self.topology.volumes[resname]
+                for graph_hash in graph_hashes:
+                    self.topology.volumes[graph_hash] = self.topology.volumes[resname]
 
     @staticmethod
     def _tag_nodes(molecule, keyword, option, molname=""):
